@@ -270,7 +270,7 @@ def tasks_for(pid, tier):
                     else:
                         k = 2 if heavy else 3 if (n <= 2 and not pool) else 2
                     out += ds("apply", k, [v], ncpu=ncpu, jobs=4)
-        out.sort(key=lambda t: (t["jobs"], t["variant"]))
+        out.sort(key=lambda t: (0 if t["variant"] >= 39 else 1, t["jobs"], t["variant"]))   # cheap, high-yield variants first
         return out
     if pid == "C14":
         allv = variants("io")
